@@ -49,6 +49,24 @@ func checkC15(c *Ctx) {
 			fHash = f.Name()
 		}
 	}
+	// the previous challenge kept by value (a copy of the map entry, its computed flag telling
+	// whether there is one) instead of through a pointer
+	prevByValue := false
+	fHasPrev := "" // a flag of the transcript saying that a previous challenge exists
+	for i := 0; i < recvT.NumFields(); i++ {
+		if b, ok := recvT.Field(i).Type().Underlying().(*types.Basic); ok && b.Kind() == types.Bool {
+			fHasPrev = recvT.Field(i).Name()
+		}
+	}
+	if fPrev == "" && chalT != nil {
+		for i := 0; i < recvT.NumFields(); i++ {
+			f := recvT.Field(i)
+			if st, ok := f.Type().Underlying().(*types.Struct); ok && types.Identical(st, chalT) {
+				fPrev = f.Name()
+				prevByValue = true
+			}
+		}
+	}
 	var fPos, fBind, fVal, fComp string
 	if chalT != nil {
 		for i := 0; i < chalT.NumFields(); i++ {
@@ -90,7 +108,7 @@ func checkC15(c *Ctx) {
 	RequireFacts(c, p, "C15.guard", cc, AcceptNilErr,
 		[]string{`^` + cur + `\.` + q(fComp) + `$`, `^0 == ` + cur + `\.` + q(fPos) + `$`, `^` + cur + `\.` + q(fPos) + ` <= 0$`},
 		[]Req{
-			{"PreviousComputed(previous != nil)", `^pr\.` + q(fPrev) + ` != nil$`},
+			{"PreviousComputed(previous != nil)", map[bool]string{false: `^pr\.` + q(fPrev) + ` != nil$`, true: `^pr\.` + q(fPrev) + `\.` + q(fComp) + `$|^pr\.` + q(fHasPrev) + `$`}[prevByValue]},
 			// previous.position == position-1, or the same equation with the 1 on the other side
 			{"PreviousIsPredecessor(previous.position == position-1)", `^\(` + cur + `\.` + q(fPos) + `-1\) == pr\.` + q(fPrev) + `\.` + q(fPos) + `$|^pr\.` + q(fPrev) + `\.` + q(fPos) + ` == \(` + cur + `\.` + q(fPos) + `-1\)$|^\((?:1\+pr\.` + q(fPrev) + `\.` + q(fPos) + `|pr\.` + q(fPrev) + `\.` + q(fPos) + `\+1)\) == ` + cur + `\.` + q(fPos) + `$|^` + cur + `\.` + q(fPos) + ` == \((?:1\+pr\.` + q(fPrev) + `\.` + q(fPos) + `|pr\.` + q(fPrev) + `\.` + q(fPos) + `\+1)\)$`},
 		})
